@@ -1445,9 +1445,29 @@ func (in *Interp) convert(v Value, to, from types.Type, at ast.Node) Value {
 				return x
 			case float64:
 				return int64(x)
+			case U64:
+				switch u.Kind() {
+				case types.Uint64, types.Uint, types.Uintptr:
+					return x
+				case types.Uint8:
+					return int64(uint8(x))
+				case types.Uint16:
+					return int64(uint16(x))
+				case types.Uint32:
+					return int64(uint32(x))
+				case types.Int8:
+					return int64(int8(x))
+				case types.Int16:
+					return int64(int16(x))
+				case types.Int32:
+					return int64(int32(x))
+				}
+				return int64(x)
 			}
 		case u.Info()&types.IsFloat != 0:
 			switch x := v.(type) {
+			case U64:
+				return float64(uint64(x))
 			case int64:
 				return float64(x)
 			case float64:
